@@ -406,6 +406,20 @@ def _compare(sc, rows, tps, points, procs, obs, viol, probe, tag=""):
             viol("context", "%sfile %s: at t=%s get_hed_objs gives %r but the context is %s"
                  % (tag, rows, pt["t"], obs["objs"][i], "non-empty" if pt["context"] else "empty"), "event-context-group-presence")
             return
+        if has_ctx:
+            # (Event-context, (process, process, ...)): the processes inside must be exactly the model's context
+            got_ec = None
+            try:
+                for it in vocab.parse(obs["objs"][i]):
+                    if isinstance(it, list) and any(isinstance(x, str) and x.casefold() == "event-context" for x in it):
+                        inner = [x for x in it if isinstance(x, list)]
+                        got_ec = sorted(_proc_canon(p) for p in (inner[0] if inner else []))
+            except vocab.HedParseError:
+                got_ec = None
+            if got_ec != pt["context"]:
+                viol("context", "%sfile %s: at t=%s the Event-context group of get_hed_objs is %r but the ongoing processes are %s"
+                     % (tag, rows, pt["t"], obs["objs"][i], [_show(c) for c in pt["context"]]), "event-context-group-content")
+                return
     # event list indices
     want = sorted((first[tps[p["start"]]], first[tps[p["end"]]] if p["end"] < len(tps) else len(onsets)) for p in procs)
     got = sorted((s, e) for evs in obs["events"] for (s, e) in evs)
